@@ -304,6 +304,8 @@ pub struct BqStream {
 }
 impl BqStream {
     pub fn new(results: Vec<SRes>, gate: Arc<Gate>, log: Arc<EventLog>) -> Self {
+        // the report rate limit is judged against process time: start the clock before any report
+        process_start();
         BqStream {
             results,
             flush_ok: vec![],
